@@ -62,6 +62,9 @@ pub struct Case {
     pub header: bool,
     pub delim: String,
     pub sched: Sched,
+    /// bytes of left-over text at the output path of the generated configuration before it runs
+    #[serde(default)]
+    pub stale: u32,
 }
 
 fn run_cfg(input: &std::path::Path, out: &std::path::Path, cfg: &OligoCfg, s: &Sched) -> Result<(Vec<u8>, crate::sched::SchedReport), (String, String)> {
@@ -118,7 +121,11 @@ pub fn check_case(c: &Case) -> Verdict {
     } else {
         c.sched.clone()
     };
-    let (got, report) = match run_cfg(&gen_in, &dir.path().join("gen.out"), &gen_cfg, &eff_sched) {
+    io::set_stale(c.stale as usize);
+    v.class_if(c.stale > 0, "output-path-holds-an-earlier-result");
+    let gen_run = run_cfg(&gen_in, &dir.path().join("gen.out"), &gen_cfg, &eff_sched);
+    io::set_stale(0);
+    let (got, report) = match gen_run {
         Ok(x) => x,
         Err((s, m)) => {
             v.fail(s, m);
@@ -180,10 +187,10 @@ fn case_strategy(tier: Tier) -> BoxedStrategy<Case> {
             let writer = if mmap { Writer::Mmap } else { Writer::Batch };
             let norm = norm0 || mmap;
             let threads = threads;
-            (gen::records_in_container(p), gen::sched_strategy(mmap, 2 * max_records)).prop_map(move |((recs, cont), sched)| {
+            (gen::records_in_container(p), gen::sched_strategy(mmap, 2 * max_records), io::stale_strategy()).prop_map(move |((recs, cont), sched, stale)| {
                 // the controlled scheduler is used with up to 6 workers
                 let threads = if matches!(sched, Sched::Controlled(_)) { ((threads - 1) % 6) + 1 } else { threads };
-                Case { recs, cont, k, threads, mem, writer, norm, header, delim: delim.to_string(), sched }
+                Case { recs, cont, k, threads, mem, writer, norm, header, delim: delim.to_string(), sched, stale }
             })
         })
         .boxed()
@@ -349,7 +356,7 @@ impl Leg for Big {
                         recs.push(Rec { id: "r".into(), desc: None, seq: crate::util::Bytes(b"ACGTTGCAAGGCTTAACCGGTTACGATCG".to_vec()) });
                     }
                     let cont = if recs.iter().any(|r| r.seq.0.is_empty()) && cont.is_fastq() { Container::plain_fasta() } else { cont };
-                    let base = Case { recs, cont, k, threads, mem, writer, norm, header, delim: delim.to_string(), sched: Sched::Free };
+                    let base = Case { recs, cont, k, threads, mem, writer, norm, header, delim: delim.to_string(), sched: Sched::Free, stale: 0 };
                     BigCase { base, target_bytes: target + slack, long_first }
                 })
             })
